@@ -87,3 +87,34 @@ def uses(*a, **k): pass
 
 def cut(x):
     return bool(x)
+
+
+def prefix_sums(seq):
+    import numpy as np
+    return np.cumsum(np.asarray(list(seq)))
+
+
+def ceil_int(x):
+    import math
+    return math.ceil(x)
+
+
+def floor_int(x):
+    import math
+    return math.floor(x)
+
+
+NATIVE_GHOSTS = {}
+
+
+def native_ghosts(target):
+    """Native computation of a contract's ghost results from (arguments, result)."""
+    def deco(fn):
+        NATIVE_GHOSTS[target] = fn
+        return fn
+    return deco
+
+
+def close(a, b, rel=1e-9, abs_=1e-9):
+    import math
+    return math.isclose(float(a), float(b), rel_tol=rel, abs_tol=abs_)
